@@ -339,24 +339,33 @@ def reconcile_rule(ctx, F):
                     why.append('lookup key is not the loop variable')
         ctx.check(good, 'C18.R4', 'reconcile:lookups', 'reconcile_path(a.get(p), b.get(p), z) with the loop variable p',
                   'reconcile calls reconcile_path with wrong operands: %s' % '; '.join(why), term_loc(b, cb))
-        # push iff act != Noop
+        # push iff act != Noop: the test is `act != Action::Noop` / `==`, or a `match` on the action itself
         pushes = fl.calls_to('std::vec::Vec::<T, A>::push')
         cmp_ok = False
+        tests = []      # (edges on which act is Noop, edges on which it is not)
         for eb, et in fl.calls_to('std::cmp::PartialEq::ne', 'std::cmp::PartialEq::eq'):
             o0, o1 = fl.origins(et['args'][0]), fl.origins(et['args'][1])
             is_act = lambda os_: bool(os_) and all(o.kind == 'call' and o.key == 'reconcile::reconcile_path' for o in os_)
             is_noop = lambda os_: bool(os_) and all(o.kind == 'agg' and o.key == 'reconcile::Action::Noop' for o in os_)
             if (is_act(o0) and is_noop(o1)) or (is_act(o1) and is_noop(o0)):
-                eq, ne = eq_edges(fl, eb)
-                if pushes and all(cfg.edges_guard(ne, pb) for pb, _ in pushes):
-                    # and on the not-equal edge the push is unavoidable before the next iteration
-                    heads = set(cfg.loops().keys())
-                    unavoidable = True
-                    for (s, t, lab) in ne:
-                        r = cfg.reach(t, cut_blocks=[pb for pb, _ in pushes])
-                        if r & (heads | set(cfg.exits())):
-                            unavoidable = False
-                    cmp_ok = unavoidable
+                tests.append(eq_edges(fl, eb))
+        oc_ = fl.outcomes(cb)
+        if 'Noop' in oc_:
+            other = set()
+            for k_, es in oc_.items():
+                if k_ != 'Noop':
+                    other |= set(es)
+            tests.append((set(oc_['Noop']), other - set(oc_['Noop'])))
+        for eq, ne in tests:
+            if pushes and ne and all(cfg.edges_guard(ne, pb) for pb, _ in pushes):
+                # and on the not-Noop edge the push is unavoidable before the next iteration
+                heads = set(cfg.loops().keys())
+                unavoidable = True
+                for (s, t, lab) in ne:
+                    r = cfg.reach(t, cut_blocks=[pb for pb, _ in pushes])
+                    if r & (heads | set(cfg.exits())):
+                        unavoidable = False
+                cmp_ok = cmp_ok or unavoidable
         ctx.check(cmp_ok, 'C18.R4', 'reconcile:push-iff-non-noop', 'out.push((p, act)) exactly on act != Noop',
                   'reconcile does not push exactly the non-Noop actions', term_loc(b, cb))
         for pb, pt in pushes:
